@@ -395,3 +395,120 @@ Proof.
   intros i nm d Hn. rewrite (constructed_field_is_argument_or_default V fields _ ND i nm d Hn). now rewrite nth_app_repeat_none.
 Qed.
 End B.
+
+(* ---- argument binding of a keyword call ---- *)
+Section K.
+Variable V : Type.
+Notation slot := (option (option V)).
+
+Lemma index_of_spec nm : forall l i, index_of nm l = Some i -> nth_error l i = Some nm.
+Proof.
+  induction l as [|x r IH]; intros i H; cbn in H; [discriminate|].
+  destruct (String.eqb_spec nm x) as [E|E]; [injection H as <-; now subst|].
+  destruct (index_of nm r) as [j|] eqn:Ej; cbn in H; [|discriminate]. injection H as <-. cbn. now apply IH.
+Qed.
+Lemma index_of_in nm : forall l, In nm l -> exists i, index_of nm l = Some i.
+Proof.
+  induction l as [|x r IH]; intros H; [destruct H|]. cbn. destruct (String.eqb_spec nm x) as [E|E]; [now exists 0|].
+  destruct H as [H|H]; [congruence|]. destruct (IH H) as [j Hj]. rewrite Hj. now exists (S j).
+Qed.
+Lemma nth_set_nth_eq {A} (d x : A) : forall l i, i < length l -> nth i (set_nth l i x) d = x.
+Proof. induction l as [|y r IH]; intros [|i] H; cbn in *; try lia; [reflexivity|apply IH; lia]. Qed.
+Lemma nth_set_nth_neq {A} (d x : A) : forall l i j, i <> j -> nth j (set_nth l i x) d = nth j l d.
+Proof. induction l as [|y r IH]; intros [|i] [|j] H; cbn; try reflexivity; try lia. apply IH. lia. Qed.
+Lemma set_nth_length {A} (x : A) : forall l i, length (set_nth l i x) = length l.
+Proof. induction l as [|y r IH]; intros [|i]; cbn; try reflexivity. now rewrite IH. Qed.
+Lemma lookup_app_notin {A} k (l1 l2 : list (string * A)) : ~ In k (map fst l1) -> lookup k (l1 ++ l2) = lookup k l2.
+Proof.
+  induction l1 as [|[k' v] r IH]; intros H; [reflexivity|]. cbn in *. destruct (String.eqb_spec k k') as [E|E]; [subst; tauto|]. apply IH. tauto.
+Qed.
+Lemma lookup_app_in {A} k (l1 l2 : list (string * A)) v : lookup k l1 = Some v -> lookup k (l1 ++ l2) = Some v.
+Proof.
+  induction l1 as [|[k' w] r IH]; intros H; [discriminate|]. cbn in *. destruct (String.eqb k k'); [exact H|now apply IH].
+Qed.
+Lemma lookup_none_notin {A} k (l : list (string * A)) : ~ In k (map fst l) -> lookup k l = None.
+Proof.
+  induction l as [|[k' v] r IH]; intros H; [reflexivity|]. cbn in *. destruct (String.eqb_spec k k') as [E|E]; [subst; tauto|]. apply IH. tauto.
+Qed.
+Lemma nth_error_nodup_inj (l : list string) i j x : NoDup l -> nth_error l i = Some x -> nth_error l j = Some x -> i = j.
+Proof.
+  intros ND Hi Hj. apply (proj1 (NoDup_nth_error l) ND); [apply nth_error_Some; congruence | congruence].
+Qed.
+
+Definition kw_step (params : list string) (acc : result (list slot)) (kv : string * option V) : result (list slot) :=
+  let '(k, v) := kv in
+  do sl <- acc;
+  match index_of k params with
+  | None => Err EType
+  | Some i => match nth i sl None with Some _ => Err EType | None => Ok (set_nth sl i (Some v)) end
+  end.
+
+(* slots agree with the keywords processed so far *)
+Definition agrees (params : list string) (sl : list slot) (done : list (string * option V)) : Prop :=
+  length sl = length params /\ forall i nm, nth_error params i = Some nm -> nth i sl None = lookup nm done.
+
+Lemma kw_fold params : NoDup params -> forall kw2 done sl, agrees params sl done ->
+  NoDup (map fst (done ++ kw2)) -> (forall k, In k (map fst kw2) -> In k params) ->
+  exists sl', fold_left (kw_step params) kw2 (Ok sl) = Ok sl' /\ agrees params sl' (done ++ kw2).
+Proof.
+  intros NDp. induction kw2 as [|[k v] r IH]; intros done sl [L A] ND Hin.
+  - exists sl. rewrite app_nil_r. now split.
+  - cbn [fold_left kw_step bind].
+    destruct (index_of_in k params (Hin k (or_introl eq_refl))) as [i Hi]. rewrite Hi.
+    assert (Hk := index_of_spec k params i Hi).
+    assert (Hnot : ~ In k (map fst done)).
+    { rewrite map_app in ND. cbn in ND. apply NoDup_remove_2 in ND. intros C. apply ND. apply in_or_app. now left. }
+    rewrite (A i k Hk), (lookup_none_notin k done Hnot).
+    assert (Hlt : i < length sl) by (rewrite L; apply nth_error_Some; congruence).
+    destruct (IH (done ++ [(k, v)]) (set_nth sl i (Some v))) as [sl' [F Ag]].
+    + split; [now rewrite set_nth_length|]. intros j nm Hj. destruct (Nat.eq_dec i j) as [<-|Ne].
+      * assert (nm = k) by congruence. subst nm. rewrite nth_set_nth_eq by exact Hlt.
+        rewrite (lookup_app_notin k done [(k, v)] Hnot). cbn. now rewrite String.eqb_refl.
+      * rewrite nth_set_nth_neq by exact Ne. rewrite (A j nm Hj).
+        assert (nm <> k) by (intros ->; apply Ne; exact (nth_error_nodup_inj params i j k NDp Hk Hj)).
+        destruct (lookup nm done) as [w|] eqn:E; [now rewrite (lookup_app_in nm done [(k, v)] w E)|].
+        assert (Hn : lookup nm (done ++ [(k, v)]) = lookup nm [(k, v)]).
+        { clear -E. induction done as [|[k' w] r0 IH0]; [reflexivity|]. cbn in *. destruct (String.eqb nm k'); [discriminate|now apply IH0]. }
+        rewrite Hn. cbn. destruct (String.eqb_spec nm k); [contradiction|reflexivity].
+    + now rewrite <- app_assoc.
+    + intros k0 H0. apply Hin. now right.
+    + exists sl'. split; [exact F|]. now rewrite <- app_assoc in Ag.
+Qed.
+
+Lemma nth_repeat_none n i : nth i (repeat (@None (option V)) n) None = None.
+Proof. revert i; induction n as [|n IH]; intros [|i]; cbn; auto. Qed.
+
+(* a call with keywords only, distinct and naming fields: every parameter gets the value of its keyword, or is not given *)
+Theorem bind_keywords (fields : list (string * V)) kw : NoDup (map fst fields) -> NoDup (map fst kw) ->
+  (forall k, In k (map fst kw) -> In k (map fst fields)) ->
+  exists args, bind_args V (generate_init V fields) [] kw = Ok args /\ length args = length fields /\
+    forall i nm d, nth_error fields i = Some (nm, d) -> nth i args None = match lookup nm kw with Some v => v | None => None end.
+Proof.
+  intros NDf NDk Hin. unfold bind_args, generate_init. cbn [co_varnames tl length map app]. rewrite map_length, Nat.sub_0_r.
+  change (if length fields <? 0 then _ else _) with
+    (do slots' <- fold_left (kw_step (map fst fields)) kw (Ok (repeat None (length fields)));
+     Ok (map (fun s : slot => match s with Some a => a | None => None end) slots')).
+  destruct (kw_fold (map fst fields) NDf kw [] (repeat None (length fields))) as [sl' [F [L A]]].
+  - split; [now rewrite repeat_length, map_length|]. intros i nm _. now rewrite nth_repeat_none.
+  - exact NDk.
+  - exact Hin.
+  - rewrite F. cbn [bind app] in *. eexists. split; [reflexivity|]. split; [now rewrite map_length, L, map_length|].
+    intros i nm d Hn. assert (Hn' : nth_error (map fst fields) i = Some nm) by (rewrite nth_error_map, Hn; reflexivity).
+    specialize (A i nm Hn').
+    rewrite <- A. set (f := fun s : slot => match s with Some a => a | None => None end).
+    change (nth i (map f sl') (f None) = f (nth i sl' None)). apply map_nth.
+Qed.
+
+Theorem keyword_construction (fields : list (string * V)) kw : NoDup (map fst fields) -> NoDup (map fst kw) ->
+  (forall k, In k (map fst kw) -> In k (map fst fields)) ->
+  exists args, bind_args V (generate_init V fields) [] kw = Ok args /\
+    exists attrs, run_init V (generate_init V fields) args = Ok attrs /\
+    forall i nm d, nth_error fields i = Some (nm, d) ->
+      lookup nm attrs = Some (match lookup nm kw with Some (Some v) => v | _ => d end).
+Proof.
+  intros NDf NDk Hin. destruct (bind_keywords fields kw NDf NDk Hin) as [args [B [_ N]]].
+  exists args. split; [exact B|]. eexists. split; [apply init_assigns_arguments_or_defaults|].
+  intros i nm d Hn. rewrite (constructed_field_is_argument_or_default V fields args NDf i nm d Hn), (N i nm d Hn).
+  destruct (lookup nm kw) as [[v|]|]; reflexivity.
+Qed.
+End K.
